@@ -1,7 +1,10 @@
-(* C19 (mask part): the two machine-integer defects of nipy/labs/mask.py found by the
-   input-class oracles, modelled as the code is (fixed-width wrap-around) and refuted against
-   the exact rule of MaskModel.v. *)
-From Coq Require Import List ZArith Bool QArith.
+(* C19 (mask part): machine-integer arithmetic in nipy/labs/mask.py.
+   Two defects found by the input-class oracles were repaired in /repo (6617727: the session
+   votes of compute_mask_sessions are summed in the platform integer instead of int8; 4d1b43b:
+   compute_mask converts integer-typed sorted values to float64 before taking gaps and the
+   mid-point).  Positive statements for the current code, and the wrap-around behaviour of the
+   old code for the record (`..._before_fix`). *)
+From Coq Require Import List ZArith Bool QArith Lia Lqa.
 From NV.C19 Require Import MaskModel.
 Import ListNotations.
 Close Scope Q_scope.
@@ -11,32 +14,67 @@ Local Open Scope Z_scope.
 Definition wrap_signed (bits : Z) (z : Z) : Z := (z + 2 ^ (bits - 1)) mod 2 ^ bits - 2 ^ (bits - 1).
 Definition wrap_unsigned (bits : Z) (z : Z) : Z := z mod 2 ^ bits.
 
-(* compute_mask_sessions: `this_mask = this_mask.astype(np.int8)`; `mask += this_mask` *)
-Definition votes_int8 (votes : list Z) : Z := fold_left (fun acc v => wrap_signed 8 (acc + v)) votes 0.
+(* `this_mask = this_mask.astype(<int of width bits>)`; `mask += this_mask` *)
+Definition votes_wrapped (bits : Z) (votes : list Z) : Z := fold_left (fun acc v => wrap_signed bits (acc + v)) votes 0.
 Definition votes_exact (votes : list Z) : Z := fold_left Z.add votes 0.
 
-Lemma sessions_votes_refuted_proof :
+Lemma wrap_signed_small bits z : 0 < bits -> - 2 ^ (bits - 1) <= z < 2 ^ (bits - 1) -> wrap_signed bits z = z.
+Proof.
+  intros Hb Hz. unfold wrap_signed.
+  assert (E : 2 ^ bits = 2 * 2 ^ (bits - 1)).
+  { replace bits with (Z.succ (bits - 1)) at 1 by lia. apply Z.pow_succ_r. lia. }
+  rewrite Z.mod_small by lia. lia.
+Qed.
+
+(* current code (np.int_, 64 bits): the vote count is exact for any realistic number of sessions *)
+Lemma votes_platform_int_exact_proof (votes : list Z) :
+  Forall (fun v => 0 <= v <= 1) votes -> Z.of_nat (length votes) < 2 ^ 62 ->
+  votes_wrapped 64 votes = votes_exact votes.
+Proof.
+  unfold votes_wrapped, votes_exact.
+  assert (G : forall acc, 0 <= acc -> acc + Z.of_nat (length votes) < 2 ^ 62 ->
+              Forall (fun v => 0 <= v <= 1) votes ->
+              fold_left (fun a v => wrap_signed 64 (a + v)) votes acc = fold_left Z.add votes acc).
+  { induction votes as [|v votes IH]; intros acc Ha Hl Hf; [reflexivity|].
+    inversion Hf as [|v' l' Hv Hr]; subst. cbn [fold_left length] in *.
+    assert (P62 : 2 ^ 62 < 2 ^ (64 - 1)) by (vm_compute; reflexivity).
+    rewrite wrap_signed_small by lia. apply IH; [lia| |exact Hr]. lia. }
+  intros Hf Hl. apply G; [lia|lia|exact Hf].
+Qed.
+
+(* old code (int8): 128 votes wrap to -128 and the voxel is dropped *)
+Lemma sessions_votes_before_fix_proof :
   exists votes : list Z,
     Forall (fun v => v = 1) votes /\ length votes = 128%nat /\
-    votes_exact votes = 128 /\ votes_int8 votes = -128 /\
-    (* rule `mask > threshold * n` with threshold 1/2: kept with exact votes, dropped with the int8 sum *)
+    votes_exact votes = 128 /\ votes_wrapped 8 votes = -128 /\
     intersect_sel (inject_Z 64) [votes_exact votes] = [true] /\
-    intersect_sel (inject_Z 64) [votes_int8 votes] = [false].
+    intersect_sel (inject_Z 64) [votes_wrapped 8 votes] = [false].
 Proof.
   exists (repeat 1 128). split; [apply Forall_forall; intros x H; now apply repeat_spec in H|].
   vm_compute. repeat split; reflexivity.
 Qed.
 
-(* compute_mask on a uint8 volume: the mid-point 0.5 * (sorted[ia] + sorted[ia+1]) with the sum taken in uint8 *)
+(* mid-point 0.5 * (sorted[ia] + sorted[ia+1]) *)
 Definition midpoint_exact (u v : Z) : Q := ((1 # 2) * inject_Z (u + v))%Q.
 Definition midpoint_uint8 (u v : Z) : Q := ((1 # 2) * inject_Z (wrap_unsigned 8 (u + v)))%Q.
 
-Lemma midpoint_uint8_refuted_proof :
+(* current code (values converted to float64; exact for |values| < 2^52): the threshold taken at
+   a gap u < v separates the two values - u is excluded, v is included by `>=` *)
+Lemma midpoint_separates_proof (u v : Z) : u < v ->
+  Qle_bool (midpoint_exact u v) (inject_Z u) = false /\ Qle_bool (midpoint_exact u v) (inject_Z v) = true.
+Proof.
+  intros H. unfold midpoint_exact. rewrite inject_Z_plus.
+  assert (Hq : (inject_Z u < inject_Z v)%Q) by (now rewrite <- Zlt_Qlt).
+  split.
+  - destruct (Qle_bool ((1 # 2) * (inject_Z u + inject_Z v)) (inject_Z u)) eqn:E; [|reflexivity].
+    apply Qle_bool_iff in E. exfalso. lra.
+  - apply Qle_bool_iff. lra.
+Qed.
+
+(* old code on a uint8 volume: 190 + 199 wraps to 133, the threshold falls below both values *)
+Lemma midpoint_uint8_before_fix_proof :
   exists u v : Z, 0 <= u <= 255 /\ 0 <= v <= 255 /\ u < v /\
-    (* the exact mid-point separates u from v, the wrapped one lies below both *)
-    Qle_bool (midpoint_exact u v) (inject_Z u) = false /\ Qle_bool (midpoint_exact u v) (inject_Z v) = true /\
     Qle_bool (midpoint_uint8 u v) (inject_Z u) = true /\
-    (* and it agrees with the model's threshold on the volume {190, 190, 199, 199}, window [1, 3) *)
     mask_threshold [inject_Z 190; inject_Z 199; inject_Z 190; inject_Z 199] (1 # 4) (3 # 4) false = Some (midpoint_exact u v).
 Proof.
   exists 190, 199. vm_compute. repeat split; try reflexivity; discriminate.
